@@ -127,3 +127,111 @@ class C12(Plugin):
             bad = check_consistent(run.root)
             if bad:
                 raise Violation('inconsistent_after_next_valid_edit', f'{bad[0]}: {bad[1]}')
+
+
+# ======================================================================================================================
+# C02 - an edited tree is observationally identical to a fresh parse of its own source
+
+@plugin
+class C02(Plugin):
+    prop = 'C02'
+    n_steps = (2, 10)
+
+    def configure(self, rng):
+        cfg = super().configure(rng)
+        cfg['p_query'] = rng.choice([0.0, 0.3, 0.5])
+        cfg['check_mode'] = rng.choice(['every', 'every', 'end', 'end_and_mid'])
+        cfg['p_hold'] = rng.choice([0.0, 0.15])
+        cfg['max_lines'] = 40
+        return cfg
+
+    def start(self):
+        self.views = {}
+
+    def gen_op(self, rng):
+        run = self.run
+        tree = run.root.a
+        r = rng.random()
+        if r < run.cfg['p_query']:
+            nodes = O.all_nodes(tree)
+            mode = rng.choice(['all', 'some', 'some', 'one'])
+            if mode == 'all' or not nodes:
+                return {'k': 'query', 'paths': None, 'level': rng.choice([1, 2])}
+            k = 1 if mode == 'one' else rng.randint(2, max(2, len(nodes) // 3))
+            from .model import path_str
+            return {'k': 'query', 'paths': sorted({path_str(rng.choice(nodes)[0]) for _ in range(k)}), 'level': rng.choice([1, 2])}
+        if r < run.cfg['p_query'] + run.cfg['p_hold']:
+            c = []
+            for path, node, _, _, _ in [((), tree, None, None, None)] + O.all_nodes(tree):
+                for f in O.list_fields(node):
+                    if f != 'type_ignores':
+                        c.append((path, f, len(getattr(node, f))))
+            if c:
+                path, f, n = rng.choice(c)
+                return {'k': 'hold_view', 'path': [list(p) for p in path], 'field': f, 'name': f'v{run.step}'}
+        return O.gen_edit(rng, tree, run.cfg)
+
+    def apply(self, op):
+        from . import queries
+        run = self.run
+        if op['k'] == 'query':
+            only = set(op['paths']) if op['paths'] is not None else None
+            queries.query_tree(run.root, op.get('level', 2), only)
+            run.stats['query_ops'] += 1
+            return None
+        if op['k'] == 'hold_view':
+            f = O.resolve_f(run.root, op['path'])
+            v = getattr(f, op['field'])
+            if not hasattr(v, '_base_indices'):
+                raise O.Skip('notview')
+            len(v)
+            self.views[op['name']] = (v, f, op['field'])
+            return None
+        return super().apply(op)
+
+    def compare(self):
+        import fst
+        from . import queries
+        run = self.run
+        live = queries.query_tree(run.root, 2)
+        fresh_root = fst.FST(run.root.src, 'exec')
+        fresh = queries.query_tree(fresh_root, 2)
+        run.stats['full_comparisons'] += 1
+        run.stats['nodes_compared'] += len(live)
+        if live != fresh:
+            d = queries.diff(live, fresh)
+            raise Violation('answer_differs_from_fresh_tree', repr(d)[:1500])
+        # held whole-field views
+        for name, (v, f, field) in self.views.items():
+            if f.a is None or f.root is not run.root:
+                continue
+            cur = getattr(f.a, field, None)
+            if not isinstance(cur, list):
+                continue
+            try:
+                n = len(v)
+                items = [v[i] for i in range(n)]
+            except Exception as e:
+                raise Violation('held_view_raises', O.exc_repr(e))
+            if n != len(cur) or any((getattr(x, 'a', x) is not y) for x, y in zip(items, cur)):
+                raise Violation('held_view_stale', f'view {field} len {n} vs field len {len(cur)}')
+            run.stats['held_view_checks'] += 1
+
+    def post_op(self, op, ctx, out):
+        run = self.run
+        if op['k'] in ('query', 'hold_view'):
+            return
+        if out[0] == 'ok':
+            run.core_after_ok(False)
+        elif out[0] == 'exc':
+            if check_consistent(run.root) is not None or modifying_registry():
+                run.stats['collateral_c12'] += 1
+                raise StopRun()
+        if id(run.root) != run.root_id:
+            raise Violation('root_identity', 'root object changed')
+        mode = run.cfg['check_mode']
+        if out[0] == 'ok' and (mode == 'every' or (mode == 'end_and_mid' and run.step % 3 == 2)):
+            self.compare()
+
+    def finish(self):
+        self.compare()
